@@ -332,8 +332,11 @@ def exec_storage(ctx, h, scratch):
             strict = False
         key = ("a." if strict else "ext.") + out
         probes[key] = probes.get(key, 0) + 1
-        events.append([op, out])
-        res["states"].append("%s|%s|%s" % (h["font"], op[0], out))
+        # whether a corrupt 4 GB length hits the harness' own memory limit depends on the process; the event
+        # log records both outcomes alike so that it stays a pure function of the run
+        shown = "rejected" if out in ("TTLibError", "memory-limit") else out
+        events.append([op, shown])
+        res["states"].append("%s|%s|%s" % (h["font"], op[0], shown))
         if not changed:
             probes["a.fault_was_identity"] = probes.get("a.fault_was_identity", 0) + 1
         if strict and out not in ("TTLibError", "opened", "memory-limit") and not res.get("violation"):
